@@ -1,4 +1,5 @@
 import Tx3Proofs.C02
+import Tx3Proofs.C02Outputs
 #print axioms Tx3.C02_fee_exact
 #print axioms Tx3.C02_validity_exact
 #print axioms Tx3.C02_mint_range
@@ -6,3 +7,8 @@ import Tx3Proofs.C02
 #print axioms Tx3.C02_donation_exact
 #print axioms Tx3.C02_negative_lovelace_wraps
 #print axioms Tx3.C02_negative_asset_dropped
+#print axioms Tx3.compileValue_exact
+#print axioms Tx3.compileValues_exact
+#print axioms Tx3.assetQty_insertAsset
+#print axioms Tx3.C02_output_exact_partial
+#print axioms Tx3.C02_output_block_exact
